@@ -2,7 +2,7 @@
 # runs the quick check of the targeted property against every seeded change (applied to /repo, reverted afterwards)
 out=${1:-/tmp/seed/results.tsv}
 : > $out
-for d in /tmp/seed/C*/out/*; do
+for d in ${SEEDROOT:-/tmp/seed}/C*/out/*; do
   wt=${d%/out/*}; id=$(basename $wt); k=$(basename $d)
   cd /repo || exit 9
   git diff --quiet || { echo "repo dirty"; exit 9; }
@@ -10,10 +10,10 @@ for d in /tmp/seed/C*/out/*; do
   git apply $P || { echo -e "$id\t$k\tAPPLYFAIL" >> $out; git checkout -q -- .; continue; }
   cd /verif
   t0=$(date +%s)
-  ./check $id --tier quick --no-evidence > /tmp/seed/check_${id}_$k.log 2>&1; rc=$?
+  ./check $id --tier quick --no-evidence > ${SEEDROOT:-/tmp/seed}/check_${id}_$k.log 2>&1; rc=$?
   t1=$(date +%s)
-  v=$(grep -c "^VIOLATION" /tmp/seed/check_${id}_$k.log)
-  first=$(grep "^VIOLATION" /tmp/seed/check_${id}_$k.log | head -1 | sed 's/.*replays\///' | cut -c1-150)
+  v=$(grep -c "^VIOLATION" ${SEEDROOT:-/tmp/seed}/check_${id}_$k.log)
+  first=$(grep "^VIOLATION" ${SEEDROOT:-/tmp/seed}/check_${id}_$k.log | head -1 | sed 's/.*replays\///' | cut -c1-150)
   echo -e "$id\t$k\trc=$rc\tviolations=$v\t$((t1-t0))s\t$first" >> $out
   cd /repo && git checkout -q -- . && git clean -fdq -- aquacrop tests
 done
